@@ -251,6 +251,72 @@ def _noop_reason(cname, kw, dlabel):
     return None
 
 
+def rule_extent(cx, rid):
+    pm = mod(PARSER)
+    r = cx.rule(rid, "every block-extent decision compares _indent_of(line) with the header's _indent_of and is preceded by a skip of blank and comment-only lines; _collect_block ends a block exactly at the first code line with indent <= base; continuation headers (elif/else/except) must sit exactly at the header's indent", floor=10)
+    collectors = ["_collect_block", "_collect_if_structure", "_collect_try_structure"]
+    sites = 0
+    scan_fns = [(q, pm.func(q)) for q in collectors] + [("_parse_simple_lines", pm.func("_parse_simple_lines"))]
+    for q, fn in scan_fns:
+        fn_defs = Locals(fn).defs
+        loops = [n for n in walk_local(fn, include_self=False) if isinstance(n, ast.While)]
+        found_here = 0
+        for lp in loops:
+            if q == "_parse_simple_lines" and norm(lp.test) == "i < len(snippet)":
+                continue  # the dispatch loop itself; the probing loops inside it are scanned below
+            assigns = {}
+            skip_seen = []  # inlined texts of lines proven non-blank/non-comment so far
+            for st in lp.body:
+                if isinstance(st, ast.Assign) and len(st.targets) == 1 and isinstance(st.targets[0], ast.Name):
+                    assigns[st.targets[0].id] = st.value
+                    continue
+                if isinstance(st, ast.If):
+                    t = st.test
+                    # skip idiom: `if not <stripped text>: ...; continue`
+                    if isinstance(t, ast.UnaryOp) and isinstance(t.op, ast.Not) and st.body and isinstance(st.body[-1], ast.Continue):
+                        txt = _inline(t.operand, assigns)
+                        skip_seen.append(txt)
+                        continue
+                    cmp_nodes = [c for c in ast.walk(t) if isinstance(c, ast.Compare) and any(isinstance(x, ast.Call) and call_name(x) == "_indent_of" for x in ast.walk(c))]
+                    exits = [x for x in walk_local(st) if isinstance(x, (ast.Break, ast.Return))]
+                    if cmp_nodes and exits and any(_loop_of(pm, x) is lp or isinstance(x, ast.Return) for x in exits):
+                        c = cmp_nodes[0]
+                        sites += 1
+                        found_here += 1
+                        ind_calls = [x for x in ast.walk(c) if isinstance(x, ast.Call) and call_name(x) == "_indent_of"]
+                        line_txt = _inline(ind_calls[0].args[0], assigns)
+                        want1 = f"_strip_inline_comment({line_txt}).strip()"
+                        ok_skip = any(s == want1 for s in skip_seen)
+                        r.check(ok_skip, f"{q}/extent[{norm(c)}]/skips-blank-and-comment", (pm, st), f"block extent is decided on `{norm(c)}` without first skipping blank AND comment-only lines ({line_txt}); a comment at a shallower column would end the block", sample=f"{q}: {norm(c)} after skip of {want1}")
+                        # the other side must be the header's own indent
+                        other = c.comparators[0] if c.left is ind_calls[0] or any(x is ind_calls[0] for x in ast.walk(c.left)) else c.left
+                        base_defs = [other]
+                        if isinstance(other, ast.Name):
+                            base_defs = fn_defs.get(other.id, []) or [other]
+                        ok_base = all(isinstance(b, ast.Call) and call_name(b) == "_indent_of" for b in base_defs)
+                        r.check(ok_base, f"{q}/extent[{norm(c)}]/base-is-header-indent", (pm, st), f"`{norm(other)}` is not the header line's _indent_of value")
+                        # operator oracle
+                        op = type(c.ops[0]).__name__
+                        left_is_line = c.left is ind_calls[0]
+                        if q == "_collect_block":
+                            good = (left_is_line and op == "LtE") or (not left_is_line and op == "GtE")
+                            r.check(good, f"{q}/extent-operator", (pm, st), f"a block must end at the first code line with indent <= base, found `{norm(c)}`")
+                        else:
+                            good = op == "NotEq"
+                            r.check(good, f"{q}/continuation-operator[{norm(c)}]", (pm, st), f"elif/else/except continuation must be probed at exactly the header's indent (`!=` ends the probe), found `{norm(c)}`")
+        if q in collectors:
+            r.check(found_here >= 1, f"{q}/extent-decided-by-indent_of", (pm, fn), f"{q} no longer decides block extent through an _indent_of comparison")
+    if sites < 5:
+        raise AnalysisError(f"only {sites} block-extent sites recognised (confirmed: 5)")
+    # who may decide extents: any other function slicing the line list on indentation
+    for q, fn in pm.funcs.items():
+        if q in collectors or q in ("_parse_simple_lines", "parse", "_indent_of") or q.startswith("_parse_simple_lines."):
+            continue
+        uses = [n for n in walk_local(fn, include_self=False) if isinstance(n, ast.Call) and call_name(n) == "_indent_of"]
+        r.check(not uses, f"{q}/new-extent-site", (pm, fn), f"{q} measures indentation: an unreviewed block-extent decision")
+    return r
+
+
 def rule_decl_siblings(cx, rid):
     """sibling cross-check: the declaration regexes of all device kinds are one pattern instantiated with the class name"""
     import re as _re
@@ -376,68 +442,7 @@ def run(cx):
                 r.check(ok, f"{fn_q}/{n.func.value.id}.match({norm(n.args[0])})-unstripped", (pm, n), f"`{stmt_key(n)}`: header regex is matched against text that may still carry a trailing comment", sample=f"{fn_q}: {n.func.value.id}.match({norm(n.args[0])})")
     cx.extra["header_regexes"] = sorted(hdr)
 
-    # ---- C07-EXTENT --------------------------------------------------------------------------
-    r = cx.rule("C07-EXTENT", "every block-extent decision compares _indent_of(line) with the header's _indent_of and is preceded by a skip of blank and comment-only lines; _collect_block ends a block exactly at the first code line with indent <= base; continuation headers (elif/else/except) must sit exactly at the header's indent", floor=10)
-    collectors = ["_collect_block", "_collect_if_structure", "_collect_try_structure"]
-    sites = 0
-    scan_fns = [(q, pm.func(q)) for q in collectors] + [("_parse_simple_lines", pm.func("_parse_simple_lines"))]
-    for q, fn in scan_fns:
-        fn_defs = Locals(fn).defs
-        loops = [n for n in walk_local(fn, include_self=False) if isinstance(n, ast.While)]
-        found_here = 0
-        for lp in loops:
-            if q == "_parse_simple_lines" and norm(lp.test) == "i < len(snippet)":
-                continue  # the dispatch loop itself; the probing loops inside it are scanned below
-            assigns = {}
-            skip_seen = []  # inlined texts of lines proven non-blank/non-comment so far
-            for st in lp.body:
-                if isinstance(st, ast.Assign) and len(st.targets) == 1 and isinstance(st.targets[0], ast.Name):
-                    assigns[st.targets[0].id] = st.value
-                    continue
-                if isinstance(st, ast.If):
-                    t = st.test
-                    # skip idiom: `if not <stripped text>: ...; continue`
-                    if isinstance(t, ast.UnaryOp) and isinstance(t.op, ast.Not) and st.body and isinstance(st.body[-1], ast.Continue):
-                        txt = _inline(t.operand, assigns)
-                        skip_seen.append(txt)
-                        continue
-                    cmp_nodes = [c for c in ast.walk(t) if isinstance(c, ast.Compare) and any(isinstance(x, ast.Call) and call_name(x) == "_indent_of" for x in ast.walk(c))]
-                    exits = [x for x in walk_local(st) if isinstance(x, (ast.Break, ast.Return))]
-                    if cmp_nodes and exits and any(_loop_of(pm, x) is lp or isinstance(x, ast.Return) for x in exits):
-                        c = cmp_nodes[0]
-                        sites += 1
-                        found_here += 1
-                        ind_calls = [x for x in ast.walk(c) if isinstance(x, ast.Call) and call_name(x) == "_indent_of"]
-                        line_txt = _inline(ind_calls[0].args[0], assigns)
-                        want1 = f"_strip_inline_comment({line_txt}).strip()"
-                        ok_skip = any(s == want1 for s in skip_seen)
-                        r.check(ok_skip, f"{q}/extent[{norm(c)}]/skips-blank-and-comment", (pm, st), f"block extent is decided on `{norm(c)}` without first skipping blank AND comment-only lines ({line_txt}); a comment at a shallower column would end the block", sample=f"{q}: {norm(c)} after skip of {want1}")
-                        # the other side must be the header's own indent
-                        other = c.comparators[0] if c.left is ind_calls[0] or any(x is ind_calls[0] for x in ast.walk(c.left)) else c.left
-                        base_defs = [other]
-                        if isinstance(other, ast.Name):
-                            base_defs = fn_defs.get(other.id, []) or [other]
-                        ok_base = all(isinstance(b, ast.Call) and call_name(b) == "_indent_of" for b in base_defs)
-                        r.check(ok_base, f"{q}/extent[{norm(c)}]/base-is-header-indent", (pm, st), f"`{norm(other)}` is not the header line's _indent_of value")
-                        # operator oracle
-                        op = type(c.ops[0]).__name__
-                        left_is_line = c.left is ind_calls[0]
-                        if q == "_collect_block":
-                            good = (left_is_line and op == "LtE") or (not left_is_line and op == "GtE")
-                            r.check(good, f"{q}/extent-operator", (pm, st), f"a block must end at the first code line with indent <= base, found `{norm(c)}`")
-                        else:
-                            good = op == "NotEq"
-                            r.check(good, f"{q}/continuation-operator[{norm(c)}]", (pm, st), f"elif/else/except continuation must be probed at exactly the header's indent (`!=` ends the probe), found `{norm(c)}`")
-        if q in collectors:
-            r.check(found_here >= 1, f"{q}/extent-decided-by-indent_of", (pm, fn), f"{q} no longer decides block extent through an _indent_of comparison")
-    if sites < 5:
-        raise AnalysisError(f"only {sites} block-extent sites recognised (confirmed: 5)")
-    # who may decide extents: any other function slicing the line list on indentation
-    for q, fn in pm.funcs.items():
-        if q in collectors or q in ("_parse_simple_lines", "parse", "_indent_of") or q.startswith("_parse_simple_lines."):
-            continue
-        uses = [n for n in walk_local(fn, include_self=False) if isinstance(n, ast.Call) and call_name(n) == "_indent_of"]
-        r.check(not uses, f"{q}/new-extent-site", (pm, fn), f"{q} measures indentation: an unreviewed block-extent decision")
+    rule_extent(cx, "C07-EXTENT")
 
     # ---- C07-INDENT --------------------------------------------------------------------------
     r = cx.rule("C07-INDENT", "_indent_of counts leading blanks: space = 1, tab = a fixed positive width, stops at the first other character (evaluated as a decision list over all strings up to length 4 over {space, tab, x, #})", floor=200, exhaustive=True)
